@@ -224,10 +224,10 @@ def run(ctx):
         raise vlib.ToolError("BlobPut.tla no longer shows the mount short cut (finding C05-1); update "
                              "the spec, the known finding and this check together")
     r = ctx.tlc("BlobPutMC", "C05_mc_known_baddig.cfg", allow_violation=True,
-                label="expected: a declared digest that does not validate is ignored")
+                label="expected (as-found switch IgnoreInvalidDigest): a declared digest that does not validate is ignored")
     if r["violated"] != "O2Strict":
-        raise vlib.ToolError("BlobPut.tla no longer shows the ignored invalid digest (finding C05-2); update "
-                             "the spec, the known finding and this check together")
+        raise vlib.ToolError("BlobPut.tla with IgnoreInvalidDigest = TRUE no longer shows the as-found behaviour of "
+                             "finding C05-2 (fixed by 69e13de)")
     r = ctx.tlc("BlobPutMC", "C05_mc_s13.cfg", allow_violation=True,
                 label="expected: chunks shrink after a partial acceptance (S13)")
     if r["violated"] != "NoMinViolation":
@@ -243,13 +243,16 @@ def run(ctx):
                                           "destinations; declared size above / below the length on and off chunk "
                                           "boundaries with no digest / digest of the stream / of the prefix; minimum "
                                           "chunk length x chunk setting on the POST and on the mount reply"),
-                       ("C05_gen_s13.cfg", "enforced minimum chunk length + partial acceptance (S13, safety only)")):
+                       ("C05_gen_s13.cfg", "enforced minimum chunk length + partial acceptance (S13, safety only; "
+                                           "thorough tier)")):
+        if cfg == "C05_gen_s13.cfg" and not thorough:
+            continue
         g = ctx.tlc_scenarios("BlobPutGen", cfg, workers=8, label="generator " + label)
         got = sorted(g["scenarios"], key=lambda x: json.dumps(x, sort_keys=True))
         for s in got:
             s["src"] = cfg[4:-4]
         tlc_scns += got
-    nsim = 12000 if thorough else 1000
+    nsim = 12000 if thorough else 800
     g = ctx.tlc_scenarios("BlobPutGen", "C05_gen.cfg", workers=1, simulate="num=%d" % nsim, depth=500,
                           extra=["-seed", str(ctx.seed)], label="generator random behaviours")
     for s in g["scenarios"]:
@@ -279,7 +282,7 @@ def run(ctx):
         drv.append(d)
         model[sid] = s
     exact_ids = set(model)
-    var = variants([d for d in drv if d["id"].startswith(("gen_core", "gen_sim", "gen_bf", "gen_retry"))], rng, 3000 if thorough else 400)
+    var = variants([d for d in drv if d["id"].startswith(("gen_core", "gen_sim", "gen_bf", "gen_retry"))], rng, 3000 if thorough else 300)
     drv += var
     for b in var:
         if b["variant"] in ("unit1", "unit64k"):  # only the scale changes: the model's prediction still applies
